@@ -29,7 +29,9 @@ class Obj:
 
 
 BENIGN = [1, "text", [1, 2, 3], {"a": [1, 2]}, (1, (2, 3)), None, b"bytes", {"k": {"n": 1}}, True, False, 2 ** 40, -(2 ** 70)]
-FLAGGED = [b"cos\nsystem\n(Vid\ntR.", b"cbuiltins\neval\n(V1\ntR.", b"cfoo\nbar\n(tR.", b"cbuiltins\ngetattr\n(cbuiltins\ndict\nVget\ntR."]
+FLAGGED = [b"cos\nsystem\n(Vid\ntR.", b"cbuiltins\neval\n(V1\ntR.", b"cfoo\nbar\n(tR.", b"cbuiltins\ngetattr\n(cbuiltins\ndict\nVget\ntR.",
+           # several findings of different severities from rules that share a name: the most severe first, then a lesser one (and the reverse)
+           b"cbuiltins\neval\n(V1\ntR0cfoo\nbar\n(tR.", b"cfoo\nbar\n(tR0cbuiltins\neval\n(V1\ntR.", b"\x80\x02\x80\x02cfoo\nbar\n."]
 
 
 def member():
